@@ -98,6 +98,30 @@ func fineFailover(name string) *Scenario {
 	return s
 }
 
+// finePreemptTwoDetectors: A (priority 1) leads with its watcher still running (it
+// followed X first), B (priority 2, takeover) preempts it. The notification of B's record
+// is held back; the window opens when A's next heartbeat gets the conflict, so that the
+// watcher path (delivery of the held event) and the heartbeat-failure path detect the same
+// loss concurrently.
+func finePreemptTwoDetectors(name string) *Scenario {
+	s := K1(&Scenario{Name: name})
+	s.Insts = []InstSpec{{ID: "X", Priority: 1}, {ID: "A", Priority: 1}, {ID: "B", Priority: 2, Takeover: true}}
+	s.Script = starts("X", "A")
+	tDel := 1*s.H + 53*ms
+	tB := tDel + 2*s.H + 31*ms
+	s.Script = append(s.Script,
+		Item{At: tDel, Actor: "stopX", Do: "stopctx", Inst: "X", DeleteKey: true, Fixed: true},
+		Item{At: tB, Actor: "startB", Do: "start", Inst: "B", Fixed: true})
+	s.HoldWatch = true
+	s.OnlyInst = []string{"A"}
+	s.FineAt = "hb-after-takeover:A"
+	s.FinePts = 600
+	s.MaxSteps = 4000
+	s.Horizon = tB + 3*s.H
+	s.LatencyBound = s.H/2 - ms
+	return s
+}
+
 func finePlan(prop, tier string) []PlanItem {
 	// two preemptions already in the quick tier: the windows are short (60-170 points)
 	// and most two-cause races need one preemption to let the first cause run and a second
@@ -139,6 +163,7 @@ func finePlan(prop, tier string) []PlanItem {
 			items = append(items, PlanItem{fineAcquire("fine/cancelled-validateOrDemote-vs-becomeLeader", Item{Do: "validateOrDemote", CtxTimeout: -1}), p})
 		}
 		items = append(items,
+			PlanItem{finePreemptTwoDetectors("fine/watch-demotion-vs-heartbeat-conflict"), p},
 			PlanItem{fineDemote("fine/validateOrDemote-vs-demotion", Item{Do: "validateOrDemote"}), p},
 			PlanItem{fineDemote("fine/stop-vs-demotion", Item{Do: "stop"}), p},
 			PlanItem{fineAcquire("fine/stop-vs-becomeLeader", Item{Do: "stop"}), p})
